@@ -22,8 +22,9 @@ LEVEL = 'exploration'
 RULE = ('Hypothesis-generated directory trees (1-3 roots in generated order, packages to depth 4, names from a tiny '
         'alphabet plus stdlib/extension names so that shadowing is frequent, optional junk files); per tree every '
         'file-backed dotted name, misspellings, absent children, children of plain modules, a fixed set of stdlib and '
-        'extension names, every relative specifier of level 1..depth+2 from every file, and import-line completion for '
-        'every package. Non-trivial tree: >= 2 roots sharing a top-level name, or a package of depth >= 2, or a generated '
+        'extension names, every relative specifier of level 1..depth+2 from every file, up to 60 import statements per tree '
+        '(relative of every level with and without tail from every file, absolute) whose bound module must show the unique attribute of '
+        'the file importlib loads, and import-line completion for every package. Non-trivial tree: >= 2 roots sharing a top-level name, or a package of depth >= 2, or a generated '
         'name shadowing a stdlib/extension name; distinct by tree spec.')
 ASSUMPTIONS = ['reference = importlib.machinery.PathFinder.find_spec walked component by component along submodule_search_locations over (roots + sys.path)',
                'only .py files are generated; extension modules are referenced by name (real lib-dynload modules), never copied into the tree',
@@ -41,27 +42,34 @@ STD_QUERIES = ['json', 'json.decoder', 'json.tool', 'json.zz', 'xml.dom', 'xml.d
 # ---------------------------------------------------------------------------
 # tree materialisation
 
+TAGS = {}     # realpath of a generated file -> the unique attribute name written into it
+
+
 def materialise(spec, base):
     roots = []
     for i, root in enumerate(spec['roots']):
         rdir = os.path.join(base, 'r%d' % i)
         os.makedirs(rdir)
         roots.append(rdir)
-        _fill(rdir, root, spec.get('junk'), top=True)
+        _fill(rdir, root, spec.get('junk'), top=True, tag='tag_r%d' % i)
     return roots
 
 
-def _fill(d, children, junk, top=False):
+def _fill(d, children, junk, top=False, tag='tag'):
     for name, node in children.items():
         if node is None:
-            with open(os.path.join(d, name + '.py'), 'w') as f:
-                f.write('x = 1\n')
+            fn = os.path.join(d, name + '.py')
+            with open(fn, 'w') as f:
+                f.write('x = 1\n%s_%s = 1\n' % (tag, name))
+            TAGS[os.path.realpath(fn)] = '%s_%s' % (tag, name)
         else:
             pd = os.path.join(d, name)
             os.makedirs(pd)
-            with open(os.path.join(pd, '__init__.py'), 'w') as f:
-                f.write('y = 2\n')
-            _fill(pd, node, junk)
+            fn = os.path.join(pd, '__init__.py')
+            with open(fn, 'w') as f:
+                f.write('y = 2\n%s_%s_init = 1\n' % (tag, name))
+            TAGS[os.path.realpath(fn)] = '%s_%s_init' % (tag, name)
+            _fill(pd, node, junk, tag='%s_%s' % (tag, name))
     if junk:
         # tagged extension-module file names: pkgutil / FileFinder enumerate them by suffix without loading them.
         # They are only used by the listing oracle (a fake .so cannot be imported, so they are never resolved).
@@ -241,6 +249,48 @@ def problems_of(spec, base):
                                 'file=%s package=%r spec=%r supp=%r importlib=%r' % (
                                     os.path.relpath(fname, base), package, rel, got, want)))
 
+    # ---- import statements end to end: the module a statement binds is the file importlib would load
+    allnames = sorted({p[-1] for ri, p, is_pkg in files} | {'zz'})
+    probes = []
+    for ri, parts, is_pkg in files:
+        rdir = os.path.join(base, 'r%d' % ri)
+        fname = os.path.join(rdir, *parts, '__init__.py') if is_pkg else os.path.join(rdir, *parts[:-1], parts[-1] + '.py')
+        package = '.'.join(parts) if is_pkg else '.'.join(parts[:-1])
+        for level in range(1, maxdepth + 2):
+            try:
+                base_abs = importlib.util.resolve_name('.' * level, package)
+            except ImportError:
+                base_abs = None
+            tails = [''] + sorted({n[len(base_abs) + 1:] for n in names if base_abs and n.startswith(base_abs + '.')})[:3]
+            for tail in tails:
+                for child in allnames:
+                    target = None if base_abs is None else '.'.join(x for x in (base_abs, tail, child) if x)
+                    probes.append(('from %s%s import %s as probe\nprobe.' % ('.' * level, tail, child), fname, target))
+    for n in sorted(names):
+        probes.append(('import %s\n%s.' % (n, n), asker_of(base), n))
+        if '.' in n:
+            probes.append(('from %s import %s as probe\nprobe.' % tuple(n.rsplit('.', 1)), asker_of(base), n))
+    probes.sort(key=lambda p: core.digest([p[0], os.path.relpath(p[1], base)]))
+    for src, fname, target in probes[:spec.get('e2e', 60)]:
+        stats['e2e'] = stats.get('e2e', 0) + 1
+        rk = ref_kind(ref_find(target, roots)) if target else ('none', None)
+        want = TAGS.get(rk[1]) if rk[0] == 'file' else None
+        if rk[0] == 'file' and want is None:
+            continue            # the name resolves outside the generated tree (stdlib): the tag oracle does not apply
+        line2 = src.split('\n')[1]
+        try:
+            prefix, props = assistant.assist(project, src, (2, len(line2)), fname)
+        except Exception as e:
+            if want:
+                out.append(('import-statement:exc:%s' % type(e).__name__, 'file=%s source=%r: %r' % (os.path.relpath(fname, base), src, e)))
+            continue
+        got = sorted(p for p in props if p.startswith('tag_'))
+        if got != ([want] if want else []):
+            kind = 'relative' if src.startswith('from .') else 'absolute'
+            out.append(('import-statement:%s:%s' % (kind, 'wrong-file' if got and want else ('not-resolved' if want else 'resolved-but-importlib-finds-nothing')),
+                        'file=%s source=%r: the bound module shows %s; importlib loads %s (%s) for %s' % (
+                            os.path.relpath(fname, base), src, got, want, rk[1] and os.path.relpath(rk[1], base), target)))
+
     # ---- import-line completion
     pkgs = sorted({'.'.join(p) for ri, p, is_pkg in files if is_pkg})
     asker = os.path.join(base, 'r0', 'asker.py')
@@ -283,6 +333,10 @@ def problems_of(spec, base):
     except Exception as e:
         out.append(('assist:exc:%s' % type(e).__name__, 'source=%r: %r' % ('import ', e)))
     return out, stats
+
+
+def asker_of(base):
+    return os.path.join(base, 'r0', 'asker.py')
 
 
 def _exists_in_any_root(full, roots):
